@@ -176,7 +176,7 @@ fn action_weight(gs: &GameState, c: &[u8; 64], a: &Action, pol: Policy, last: &O
     }
 }
 
-fn choose(gs: &GameState, acts: &[Action], pol: Policy, last: &Option<Action>, rng: &mut Rng) -> Action {
+pub fn choose_action(gs: &GameState, acts: &[Action], pol: Policy, last: &Option<Action>, rng: &mut Rng) -> Action {
     let c = cells(gs.piece_board());
     let ws: Vec<f64> = acts.iter().map(|a| action_weight(gs, &c, a, pol, last, rng)).collect();
     let total: f64 = ws.iter().sum();
@@ -230,7 +230,7 @@ pub fn play(g: &mut Game, rng: &mut Rng, pol: Policy, max_actions: usize, probe_
             }
         }
         let side = if gs.is_p1_turn_to_move() { 0 } else { 1 };
-        let a = choose(&gs, &off, pol, &last_own[side], rng);
+        let a = choose_action(&gs, &off, pol, &last_own[side], rng);
         if let Action::Move(_, _) = a {
             last_own[side] = Some(a);
         }
